@@ -6,7 +6,7 @@ from cachekey_lib import *
 META = {
     "technique": "Lean 4 theorems over a model of the kernel-key construction whose field lists, combinators and hash renderings are regenerated from the four C++ sources; differential run of real device::setupKernelInfo (Serial, OpenMP) against the model instantiated with the exact hash_t and json-dump models on families of configurations whose values coincide across properties; real two-process builds whose kernels return configuration-dependent values",
     "category": "proof",
-    "level_text": "Proof, for every hash function H, JSON encoder and hash rendering: with injective H/encoder/rendering equal kernel keys imply equal effective inputs (C06_injective, C06_key_determines_inputs); with the encoder instantiated by the model of json::dumpToString its injectivity is proved rather than assumed, on well-formed JSON values (C06_injective_dump via dump_injective); without any idealisation a key shared by configurations with different effective inputs yields a collision of H, of the encoder or of a rendering (C06_collision_reduces); every input named by the property is in the regenerated field tables, which have the labelled full-width shape (C06_fields_cover, C06_table_shape); the key depends on nothing but the hashed fields and the source (C06_deterministic); the constant the OpenMP device xors into the key is an injective step (C06_constant_mix_injective); the historical xor composition collides for every hash function (C06_value_fold_collides). Tied to the code by the regenerated tables (a dropped field, an XOR combinator, a short rendering, a dropped guard make the theorems fail) and by a seeded differential run of the real setupKernelInfo / kernelHash / kernelHeaderHash against the model (exact 256-bit keys, Serial and OpenMP), a pairwise collision oracle inside the harness, two-process determinism and real three-process builds whose kernels return configuration-dependent values.",
+    "level_text": "Proof, for every hash function H, JSON encoder and hash rendering: with injective H/encoder/rendering equal kernel keys imply equal effective inputs (C06_injective, C06_key_determines_inputs); with the encoder instantiated by the model of json::dumpToString its injectivity is proved rather than assumed, on well-formed JSON values (C06_injective_dump via dump_injective); without any idealisation a key shared by configurations with different effective inputs yields a collision of H, of the encoder or of a rendering (C06_collision_reduces); every input named by the property is in the regenerated field tables, which have the labelled full-width shape (C06_fields_cover, C06_table_shape); the key depends on nothing but the hashed fields and the source (C06_deterministic); the constant the OpenMP device xors into the key is an injective step (C06_constant_mix_injective); the historical xor composition collides for every hash function (C06_value_fold_collides); and the closed form for the exact model — the very instance the driver runs and the correspondence compares bit for bit with the real code, all side conditions proved (getFullString injective on well-formed hashes, xor with a constant an involution): equal keys of well-formed configurations with different effective inputs exhibit two different strings with the same occa::hash (C06_exact_collision_is_hash_collision, C06_collision_is_hash_collision). Tied to the code by the regenerated tables (a dropped field, an XOR combinator, a short rendering, a dropped guard make the theorems fail) and by a seeded differential run of the real setupKernelInfo / kernelHash / kernelHeaderHash against the model (exact 256-bit keys, Serial and OpenMP), a pairwise collision oracle inside the harness, two-process determinism and real three-process builds whose kernels return configuration-dependent values.",
     "level_note": "Trusted: Lean kernel; translate/gen_cachekey.py (regex extraction of the field tables and shapes); the hand-written model of the labelled key assembly and of json::dumpToString (validated by the exact-key correspondence, not proved equal to the C++); injectivity of H is an idealisation (a 256-bit hash cannot be injective: the reduction theorem C06_collision_reduces is the statement that needs no such hypothesis); injectivity of the JSON dump is property C24's round trip; cache directories use only the first 64 bits of the key (getString), recorded as an explicit hypothesis `dir` injective in C07 and not decidable here; the process environment (OCCA_CXX, CXXFLAGS, …) is held fixed as the property says; only Serial and OpenMP keys are covered.",
     "design_ref": "DESIGN.md section 4, C06",
 }
@@ -233,7 +233,10 @@ def run_procs(ck, hb, procs, tag):
     """every element of procs in its own process, sharing one cache directory"""
     work = fresh_dir("c06-build-%s" % tag)
     cache = os.path.join(work, "cache")
-    return [run_harness(ck, hb, ops, cache, work, timeout=300) for ops, exp in procs]
+    res = [run_harness(ck, hb, ops, cache, work, timeout=600) for ops, exp in procs]
+    if all(r[0] == 0 for r in res):
+        shutil.rmtree(cache, ignore_errors=True)
+    return res
 
 
 def judge(ck, procs, res):
